@@ -1,8 +1,76 @@
 import MidnightZK.Model.Common
-/-! Line-protocol handler of property C20 (stub: answers `unimplemented`). -/
+import MidnightZK.Model.C20.Ipa
+import MidnightZK.Model.C20.Group
+/-! Line-protocol handler of property C20. -/
 namespace MidnightZK.C20.Driver
+open MidnightZK MidnightZK.C20
 
-def answer (_line : String) : String := "unimplemented"
+def frList? (s : String) : Option (List Fr) := (parseNatList? s).map (·.map fr)
+
+/-- Challenges with the inverse the code computes (`uj.invert().unwrap()`); `none` if a
+challenge is zero (the code panics). -/
+def withInv? (us : List Fr) : Option (List (Fr × Fr)) :=
+  us.mapM fun u => if u.val = 0 then none else some (u, u.inv)
+
+/-- `l0:r0,l1:r1,…` or `-`. -/
+def parsePairs? (s : String) : Option (List (Fr × Fr)) :=
+  if s = "-" then some [] else
+  (s.splitOn ",").mapM fun t =>
+    match t.splitOn ":" with
+    | [a, b] => do
+      let a ← parseNat? a
+      let b ← parseNat? b
+      pure (fr a, fr b)
+    | _ => none
+
+def fmtFr (l : List Fr) : String := fmtHexList (l.map (·.val))
+
+def isPow2 (n : Nat) : Bool := n ≠ 0 ∧ 2 ^ n.log2 = n
+
+def answer (line : String) : String :=
+  match words line with
+  | ["ipa-sched", side, len] =>
+    match len.toNat? with
+    | some len =>
+      if !isPow2 len then "panic"
+      else if side = "P" then " ".intercalate ((proverSchedule len).map IpaEv.tok)
+      else if side = "V" then " ".intercalate ((verifierScheduleIpa len).map IpaEv.tok)
+      else "bad-op"
+    | none => "bad-op"
+  | ["ipa-vscalars", r, s, us] =>
+    -- scalars of the final MSM of `ipa_verify`
+    match parseNat? r, parseNat? s, frList? us with
+    | some r, some s, some us =>
+      match withInv? us with
+      | some us => fmtFr (verifierMsmScalars (fr r) (fr s) us)
+      | none => "panic"
+    | _, _, _ => "bad-op"
+  | ["ipa-prove", w, b1, b2, r, us] =>
+    -- proof elements written by `ipa_prove` (bases given by their discrete logarithms)
+    match frList? w, frList? b1, frList? b2, parseNat? r, frList? us with
+    | some w, some b1, some b2, some r, some us =>
+      if w.length ≠ b1.length ∨ w.length ≠ b2.length ∨ !isPow2 w.length then "panic"
+      else if us.length ≠ rounds w.length then "bad-op"
+      else
+        match withInv? us with
+        | some us =>
+          let pf : IpaProof Fr Fr := ipaProve w b1 b2 (fr r) us
+          " ".intercalate (pf.lrs.flatMap (fun lr => [fmtPoint lr.1, fmtPoint lr.2]) ++ [toHex pf.s.val])
+        | none => "panic"
+    | _, _, _, _, _ => "bad-op"
+  | ["ipa-verify", b1, b2, res1, res2, r, us, lrs, s] =>
+    -- verdict of `ipa_verify` (everything by discrete logarithm, challenges as recorded)
+    match frList? b1, frList? b2, parseNat? res1, parseNat? res2, parseNat? r, frList? us,
+        parsePairs? lrs, parseNat? s with
+    | some b1, some b2, some res1, some res2, some r, some us, some lrs, some s =>
+      if b1.length ≠ b2.length ∨ !isPow2 b1.length then "panic"
+      else if us.length ≠ rounds b1.length ∨ lrs.length ≠ us.length then "bad-op"
+      else
+        match withInv? us with
+        | some us => fmtBool (ipaVerify b1 b2 (fr res1) (fr res2) (fr r) us { lrs := lrs, s := fr s })
+        | none => "panic"
+    | _, _, _, _, _, _, _, _ => "bad-op"
+  | _ => "bad-op"
 
 end MidnightZK.C20.Driver
 
